@@ -92,11 +92,12 @@ def build_all(need_harness=True, race=False):
         h.update(fn.encode())
         h.update(open(fn, "rb").read())
     stamp = os.path.join(BUILD, "access.stamp")
-    if not (os.path.exists(acc_v) and os.path.exists(acc_json) and os.path.exists(stamp) and open(stamp).read() == h.hexdigest()):
+    if not (os.path.exists(acc_v) and os.path.exists(acc_json) and os.path.exists(os.path.join(COQ, "Gen", "Chans.v"))
+            and os.path.exists(stamp) and open(stamp).read() == h.hexdigest()):
         rc2, out2, dt2 = sh(["go", "build", "-o", os.path.join(BUILD, "vaccess"), "./cmd/vaccess"], cwd=HARNESS, env=GOENV, timeout=600)
         if rc2 == 0:
-            rc2, out2, dt2 = sh([os.path.join(BUILD, "vaccess"), os.path.join(REPO, "go", "client"), acc_v + ".new", acc_json],
-                                env=GOENV, timeout=300)
+            rc2, out2, dt2 = sh([os.path.join(BUILD, "vaccess"), os.path.join(REPO, "go", "client"), acc_v + ".new", acc_json,
+                                 os.path.join(COQ, "Gen", "Chans.v")], env=GOENV, timeout=300)
         if rc2 == 0:
             if not os.path.exists(acc_v) or open(acc_v).read() != open(acc_v + ".new").read():
                 os.replace(acc_v + ".new", acc_v)
@@ -106,6 +107,7 @@ def build_all(need_harness=True, race=False):
         else:
             # no inventory of the current source: C17's theorem must not be checked against a stale one
             open(acc_v, "w").write("(* vaccess failed on the current source *)\nDefinition inventory_unavailable := tt.\n")
+            open(os.path.join(COQ, "Gen", "Chans.v"), "w").write("(* vaccess failed on the current source *)\nDefinition chan_ops_unavailable := tt.\n")
             if os.path.exists(stamp):
                 os.remove(stamp)
         st["stages"]["vaccess"] = {"rc": rc2, "s": round(dt2, 1), "out": out2[-3000:]}
